@@ -69,6 +69,7 @@ type GhostDecl struct {
 	PkgName string
 	Type    string
 	IsField bool
+	Scratch bool // may be overwritten by anybody: exempt from callers' frame checks, havocked at every contract call
 }
 
 type AxiomDecl struct {
@@ -315,10 +316,17 @@ func (db *SpecDB) LoadFile(file string, defaultPkg string) error {
 			cur = nil
 		case "ghost":
 			f := strings.Fields(rest)
-			if len(f) < 3 {
-				return errf(rc, "ghost var|field name type")
+			scratch := false
+			if len(f) > 0 && f[0] == "scratch" {
+				// `ghost scratch var x T`: a witness a function leaves for its OWN postcondition; anybody may overwrite it, so a
+				// caller that does not list it in its modifies clause is not in breach of its frame
+				scratch = true
+				f = f[1:]
 			}
-			gd := &GhostDecl{Name: f[1], PkgName: pkgName, Type: strings.Join(f[2:], " "), IsField: f[0] == "field"}
+			if len(f) < 3 {
+				return errf(rc, "ghost [scratch] var|field name type")
+			}
+			gd := &GhostDecl{Name: f[1], PkgName: pkgName, Type: strings.Join(f[2:], " "), IsField: f[0] == "field", Scratch: scratch}
 			db.Ghosts[pkgName+"."+gd.Name] = gd
 			cur = nil
 		case "global":
